@@ -81,7 +81,16 @@ RULE = ("scripts of write / write_char / flush / out! / outln! over all 12 integ
         "invocations on a spawned thread, values taken from the child's stdin through the reader of a later invocation, "
         "standard output a pipe / an empty regular file / a regular file holding an earlier line that must survive; the "
         "child's complete standard output is compared); a writer dropped and a NEW writer made over the SAME scripted "
-        "sink (`nw`, the sink's length right after the drop is checked like a flush point); sinks accepting 1..k bytes per write call with Interrupted results injected; read back through "
+        "sink (`nw`, the sink's length right after the drop is checked like a flush point); a quarter of the cases of every "
+        "single-writer family with the writer's life ended by UNWINDING from a panic in the CALLER's code after the last "
+        "piece, the sink healthy (index out of range in an argument of writer.write / a user-defined Writable impl that "
+        "panics after writing the last piece / panic_any; the script in a closure under catch_unwind, on a worker thread "
+        "that panics, or run as a whole inside a destructor while the thread is already unwinding; pieces through "
+        "Writer::write or through the trait method Writable::write directly, which leaves bytes pending in debug builds "
+        "too; now and then the same bug once in mid-script with the writer only borrowed), a quarter of the two-writer "
+        "cases with both writers dropped by unwinding, a quarter of the make_io! cases with the function that called "
+        "make_io! panicking at its end (main or worker thread): same expected observation as the ordinary end of life; "
+        "sinks accepting 1..k bytes per write call with Interrupted results injected; read back through "
         "Reader element by element (integers, string tokens), with read_vec / the tuple impls, and with read_lines; "
         "each case runs on the debug (flush per write; the executor verifies after every operation that nothing is left "
         "pending) and the release (buffered) executor and is compared with the model instantiated with the hook's "
@@ -91,7 +100,8 @@ TRUSTED = ["executor harness/crates/c09 (drives rlib_io::Writer through write/wr
            "into a scripted sink (a pipe or a regular file for make_io!; for `e` operations it pipes the values' renderings "
            "into the child's stdin; a lost earlier line of the file is reported as F!earlier-file-content), prints the received bytes; compares with to_string, reads back "
            "through rlib_io::Reader; for the second writer of a two-writer case and for the debug flush-per-write only "
-           "its own verdict (F!other / F!dbgflush) reaches Coq)",
+           "its own verdict (F!other / F!dbgflush) reaches Coq; in the unwinding modes it raises the caller's panic itself and "
+           "answers P for any other panic)",
            "checks/c09.py (case generator, run-length / period encoding of long byte strings, Coq term printer; `mv` and `nx` are "
            "not events of the model, `nw` is printed as OFlush, a print! marker as the write of that string, `e` as "
            "the write of the value fed to stdin)",
@@ -151,7 +161,7 @@ def op_tokens(o):
         return ["w"] + val_tokens(o[1])
     if k == "c":
         return ["c", str(o[1])]
-    if k in ("f", "mv", "nw"):
+    if k in ("f", "mv", "nw", "pn"):
         return [k]
     if k == "nx":
         return ["nx", hx(o[1]), str(o[2])]
@@ -188,11 +198,15 @@ def harness_line(c):
         return " ".join(toks)
     head = [str(x) for x in c["sink"]] + [str(c.get("rt", 0))]
     if c.get("dual"):
-        toks = ["D"] + head + [str(c["dual"]["which"]), str(c["dual"]["dropfirst"])]
+        # + 2: both writers are dropped by unwinding from a panic of the caller
+        toks = ["D"] + head + [str(c["dual"]["which"]), str(c["dual"]["dropfirst"] + (2 if c["dual"].get("uw") else 0))]
         for w, o in interleave(c):
             toks += [str(w)] + op_tokens(o)
         return " ".join(toks)
     toks = ["S"] + head
+    if c.get("uw"):
+        # the writer's life ends by unwinding from a panic of the caller: [via, entry, bug, mid]
+        toks = ["U"] + [str(x) for x in c["uw"]] + head
     for o in c["ops"]:
         toks += op_tokens(o)
     return " ".join(toks)
@@ -341,7 +355,7 @@ def ops_term(c):
     out = []
     for x in c["ops"]:
         k = x[0]
-        if k == "mv" or (k == "nx" and not x[1]):
+        if k in ("mv", "pn") or (k == "nx" and not x[1]):
             continue
         if k == "nw":
             out.append("OFlush")
@@ -392,7 +406,7 @@ def pieces(c):
     for o in c["ops"]:
         if o[0] in ("w", "c", "e") or (o[0] == "nx" and o[1]):
             n += 1
-        elif o[0] in ("f", "mv", "nw", "nx"):
+        elif o[0] in ("f", "mv", "nw", "nx", "pn"):
             pass
         elif o[0] in ("o", "ol"):
             n += len(o[1]) + 1
@@ -408,7 +422,8 @@ def classify(c, obs):
     r = parse_obs(obs)
     size = "panic" if r is None else ("empty" if not r[0] else ("<64" if len(r[0]) < 64 else
                                                                 ("<BUF" if len(r[0]) < BUF[0] else ">=BUF")))
-    return "%s/out%s" % (c.get("kind", "corpus"), size)
+    uw = "+unwind" if (c.get("uw") or (c.get("dual") or {}).get("uw") or (c["ops"] and c["ops"][-1][0] == "pn")) else ""
+    return "%s%s/out%s" % (c.get("kind", "corpus"), uw, size)
 
 
 # ----------------------------------------------------------------------------- generator
@@ -990,8 +1005,48 @@ def generate(rng, tier):
     # 8b. make_io! 2..4 times in sequence in ONE child process
     for j in range(24 if quick else 240):
         cases.append(makeio_multi_case(rng.fork("mio2/%d" % j), j))
+    cases = [unwinding(rng.fork("uw%d" % j), c, j) for j, c in enumerate(cases)]
     rng.shuffle(cases)   # spread the expensive cases over the batch files
     return cases
+
+
+def separated(c):
+    """a further integer may follow the script's last piece without gluing to a token"""
+    if c.get("rt", 0) in (0, 2) or not c["ops"]:
+        return True
+    last = [o for o in c["ops"] if o[0] not in ("f", "mv", "nw")][-1:]
+    return not last or last[0][0] == "ol" or (last[0][0] == "c" and last[0][1] in (32, 10, 9, 13))
+
+
+def unwinding(rng, c, j):
+    """A fraction of every family: the writer's life ends because the CALLER's code panics after the last piece (index
+    out of range in an argument of writer.write / a user-defined Writable impl that panics after writing / panic_any),
+    the sink being healthy: the script runs in a closure under catch_unwind (via 0), on a worker thread that panics
+    (via 1), or as a whole inside a destructor while the thread is already unwinding (via 2); so impl Drop for Writer
+    runs with std::thread::panicking() == true.  entry 1: the `w` pieces go through the trait method Writable::write
+    directly (what a user-defined impl calls: no flush per write in debug builds either, so bytes are pending in both
+    profiles; half of these scripts get a final integer piece).  mid: the same bug once in the middle of the script with
+    the writer only borrowed, caught; the writer lives on.  Two-writer cases: both dropped by unwinding.  make_io!
+    cases: the function that called make_io! panics at its end (`pn`), on the main or the worker thread, the child's
+    main catches it.  The observation has to be the one of the ordinary run: same Coq term."""
+    if c.get("query"):
+        return c
+    if c.get("makeio"):
+        if j % 4 == 1 and not any(o[0] == "pn" for o in c["ops"]):
+            return dict(c, ops=c["ops"] + [["pn"]])
+        return c
+    if c.get("dual"):
+        return dict(c, dual=dict(c["dual"], uw=1)) if j % 4 == 1 else c
+    if not rng.chance(1, 4):
+        return c
+    via = rng.choice([0, 0, 1, 1, 2])
+    entry = 0 if via == 2 else rng.below(2)
+    bug = rng.below(3)
+    ops = list(c["ops"])
+    if entry == 1 and rng.chance(1, 2) and separated(c) and not (ops and ops[-1][0] == "w"):
+        ops.append(["w", ["i", "u32", rng.below(100000)]])
+    mid = rng.below(len(ops)) if ops and via != 2 and rng.chance(1, 4) else -1
+    return dict(c, ops=ops, uw=[via, entry, bug, mid])
 
 
 # ----------------------------------------------------------------------------- shrinking
@@ -1066,8 +1121,23 @@ def shrink(c):
         out.append(dict(c, ops=ops[:i] + ops[i + 1:]))
     if c["sink"] != [1000000, 0, 0]:
         out.append(dict(c, sink=[1000000, 0, 0]))
+    if c.get("uw"):
+        via, entry, bug, mid = c["uw"]
+        out.insert(0, {k: v for k, v in c.items() if k != "uw"})      # the ordinary end of life
+        # an index into the script does not survive the removal of operations
+        out = [dict(x, uw=[via, entry, bug, -1]) if x.get("uw") and len(x["ops"]) != n else x for x in out]
+        if mid >= 0:
+            out.append(dict(c, uw=[via, entry, bug, -1]))
+        if via:
+            out.append(dict(c, uw=[0, entry, bug, mid]))
+        if bug:
+            out.append(dict(c, uw=[via, entry, 0, mid]))
+        if entry:
+            out.append(dict(c, uw=[via, 0, bug, mid]))
     if c.get("dual"):
         d = c["dual"]
+        if d.get("uw"):
+            out.insert(0, dict(c, dual={k: v for k, v in d.items() if k != "uw"}))
         oth = d["other"]
         if not oth:
             plain = {k: v for k, v in c.items() if k != "dual"}
@@ -1084,7 +1154,12 @@ def shrink(c):
     if c.get("makeio"):
         plain = {k: v for k, v in c.items() if k not in ("makeio", "out", "thr0")}
         pops = []
+        if ops and ops[-1][0] == "pn":
+            out.insert(0, dict(c, ops=ops[:-1]))
+            plain["uw"] = [0, 0, 0, -1]
         for o in ops:            # the same script without the child process: one writer after the other over one sink
+            if o[0] == "pn":
+                continue
             if o[0] == "nx":
                 pops.append(["nw"])
                 if o[1]:
@@ -1216,7 +1291,9 @@ MANIFEST = {
             "text of any integer vector parses back to the values with a reader that accumulates digits as Reader does). "
             "The model is tied to the code on every run: scripted writes through the public API (String and &str of "
             "up to 3*BUF_SIZE+1 bytes with visible structure, pieces fitting the free space exactly, Vecs crossing the "
-            "buffer end, moved writers, two interleaved writers, one writer after the other over one sink, the real "
+            "buffer end, moved writers, two interleaved writers, one writer after the other over one sink, writers "
+            "dropped by unwinding from a panic of the caller (catch_unwind, worker thread, inside a destructor; public and "
+            "trait entry point), the real "
             "make_io! in a child process -- once, and 2..4 times in sequence in one process with print! in between, on "
             "threads, reading stdin, standard output a pipe or a regular file) into sinks that "
             "accept 1..k bytes per call and return Interrupted, on a debug and a release executor (a third, buffered "
